@@ -161,11 +161,11 @@ def run(repo, run, tier):
     # ---- R2 (mode flag): the variable that selects integer / symbolic successor computation is loop-carried;
     # each way of evaluating an explicit value must (re-)establish it, otherwise the mode of an earlier
     # member leaks into the members after a later explicit value
-    sel = [n for n in ast.walk(value_loop) if isinstance(n, ast.If) and isinstance(n.test, ast.Name)
+    sel = [n for n in ast.walk(value_loop) if isinstance(n, ast.If) and isinstance(pyflow.if_arms(n)[0], ast.Name)
            and any(isinstance(x, ast.Assign) and pyflow.is_name(x.targets[0], "cvalue") for x in ast.walk(n))]
     if len(sel) != 1:
         raise AnalysisError("C11.R2: successor selection `if <flag>:` not found")
-    flag = sel[0].test.id
+    flag = pyflow.if_arms(sel[0])[0].id
     tries = [n for n in ast.walk(value_loop) if isinstance(n, ast.Try)]
     if len(tries) != 1:
         raise AnalysisError("C11.R2: expected one try/except evaluating the explicit value")
